@@ -655,7 +655,7 @@ def cons_run(ctx):
     behs = devbehs
     for rev in (4, 3):
         d = M.tlc_dir(ctx, "g_cons%d" % rev)
-        M.write_cfg(d, "g", cons_cfg("stream", rev, 2, inv="TypeOK", view=False))
+        M.write_cfg(d, "g", cons_cfg("stream", rev, maxcli, inv="TypeOK", view=False))
         rc, out = M.sh(["tlc", "-workers", "4", "-metadir", os.path.join(d, "meta"), "-dump", "dot,actionlabels", os.path.join(d, "graph"),
                         "-config", "g.cfg", "Construct.tla"], cwd=d, timeout=900)
         if rc == 124 or "Model checking completed. No error" not in out:
